@@ -67,6 +67,53 @@ func (g *gen) pattern() J {
 	return m
 }
 
+// Directed family: joins over incoming bindings that bind DIFFERENT variable sets (an `or` of
+// patterns over different variables, then patterns that use some of them), over flat facts
+// whose values include null - the shapes in which substitution of the incoming binding
+// (Bindings.Bind) decides the result.
+var jvals = []interface{}{1.0, 2.0, "x", nil}
+
+func (g *gen) jfact() J {
+	m := J{}
+	for i, n := 0, 1+g.r.Intn(3); i < n; i++ {
+		m[keys[g.r.Intn(len(keys))]] = jvals[g.r.Intn(len(jvals))]
+	}
+	return m
+}
+
+func (g *gen) jpattern() J {
+	m := J{}
+	for i, n := 0, 1+g.r.Intn(2); i < n; i++ {
+		k := keys[g.r.Intn(len(keys))]
+		if g.r.Intn(5) == 0 {
+			m[k] = jvals[g.r.Intn(len(jvals))]
+		} else {
+			m[k] = vars[g.r.Intn(len(vars))]
+		}
+	}
+	return m
+}
+
+func (g *gen) jquery() (J, J) {
+	ts, js := A{}, A{}
+	for i, k := 0, 2+g.r.Intn(2); i < k; i++ {
+		p := g.jpattern()
+		ts, js = append(ts, J{"t": "pattern", "p": p}), append(js, J{"pattern": p})
+	}
+	sc := g.r.Intn(4) == 0
+	ot, oj := J{"t": "or", "qs": ts, "sc": sc}, J{"or": js, "shortCircuit": sc}
+	at, aj := A{ot}, A{oj}
+	for i, k := 0, 1+g.r.Intn(2); i < k; i++ {
+		p := g.jpattern()
+		var qt, qj J = J{"t": "pattern", "p": p}, J{"pattern": p}
+		if g.r.Intn(5) == 0 {
+			qt, qj = J{"t": "not", "q": qt}, J{"not": qj}
+		}
+		at, aj = append(at, qt), append(aj, qj)
+	}
+	return J{"t": "and", "qs": at}, J{"and": aj}
+}
+
 // query returns the tree for TLC and the JSON rulio takes.
 func (g *gen) query(depth int) (J, J) {
 	n := g.r.Intn(100)
@@ -134,9 +181,10 @@ func encTree(t *enc.Tables, q J) J {
 
 func main() {
 	var (
-		seed = flag.Int64("seed", 1, "seed")
-		n    = flag.Int("n", 2000, "number of queries")
-		out  = flag.String("out", "query.ndjson", "output")
+		seed  = flag.Int64("seed", 1, "seed")
+		n     = flag.Int("n", 2000, "number of queries")
+		out   = flag.String("out", "query.ndjson", "output")
+		joins = flag.Bool("joins", true, "every fourth case is a directed join over heterogeneous bindings and null values")
 	)
 	flag.Parse()
 	core.DefaultLogger = core.NewSimpleLogger(ioutil.Discard)
@@ -169,10 +217,14 @@ func main() {
 			locs[name] = loc
 		}
 		withParent := g.r.Intn(2) == 0
+		directed := *joins && i%4 == 3
 		facts := A{}
 		add := func(loc string, k int) {
 			for j := 0; j < k; j++ {
 				f := g.fact()
+				if directed {
+					f = g.jfact()
+				}
 				id := fmt.Sprintf("f%d", j) // the same ids in the location and in its parent
 				cp := J{}
 				bs, _ := json.Marshal(f)
@@ -191,6 +243,9 @@ func main() {
 			}
 		}
 		tree, js := g.query(3)
+		if directed {
+			tree, js = g.jquery()
+		}
 		qs, _ := json.Marshal(js)
 		qr, err := locs["A"].Query(ctx, string(qs))
 		res := A{}
